@@ -30,6 +30,8 @@ REL = 'include/yorel/yomm2/detail/compiler.hpp'
 PRELUDE = r'''
 #include "yv_compiler.h"
 #define definition cdefinition
+#define YV_AT(v, it) (*(it))          /* *iter */
+#define YV_FRONT(v) ((v).data[0])   /* v.front() */
 
 definition g_defs[NC];          /* the candidates' pointees (contents irrelevant here) */
 #define IN_ARENA(p) (__CPROVER_same_object((p), g_defs) && \
@@ -147,7 +149,8 @@ BODY_RULES = [
     X.Rule('vec.erase', r'\b(\w+)\.erase\(', r'vec_defp_erase(&\1, '),
     X.Rule('vec.push_back', r'\b(\w+)\.push_back\(', r'vec_defp_push_back(&\1, '),
     X.Rule('vec.size()', r'\b(\w+)\.size\(\)', r'VEC_SIZE(\1)'),
-    X.Rule('vec.front()', r'\b(\w+)\.front\(\)', r'(\1.data[0])'),
+    X.Rule('vec.front()', r'\b(\w+)\.front\(\)', r'YV_FRONT(\1)'),
+    X.Rule('*iter', r'\*iter\b', 'YV_AT(best, iter)', 2),
 ] + X.COMMON_RULES
 
 
